@@ -12,9 +12,14 @@ from ..model import glob_match
 from ..resp import Err, Status, Closed, Timeout
 from ..util import Result
 
-CHANNELS = [b"news.a", b"news.b", b"news.*", b"x", b"", b"news.", b"bin\x00\r\nch", b"NEWS.a", b"news.ab"]
+CHANNELS = [b"news.a", b"news.b", b"news.*", b"x", b"", b"news.", b"bin\x00\r\nch", b"NEWS.a", b"news.ab",
+            # channels named by (or like) the escape-only patterns below, with and without the backslash
+            b"news\\.a", b"n\\ews.a", b"a\\b", b"*"]
 PATTERNS = [b"*", b"news.*", b"n?ws.*", b"news.[ab]", b"news.a", b"*.a", b"\\*", b"news.\\*", b"[n]ews*", b"news.[^a]",
-            b"news.[a-c]*", b"?", b"x*", b"bin*"]
+            b"news.[a-c]*", b"?", b"x*", b"bin*",
+            # escapes without any wildcard (a literal after unescaping), escapes in front of a trailing star,
+            # an escaped backslash, the pattern equal to a channel name, the empty pattern
+            b"news\\.a", b"n\\ews.a", b"a\\\\b", b"news\\.*", b"\\n\\e\\w\\s.b", b"x", b""]
 PAYLOADS = [b"hello", b"", b"\x00\xff", b"line\r\nbreak", b"+OK\r\n", b"*3\r\n$7\r\nmessage\r\n", b"p" * 70000]
 
 
